@@ -274,6 +274,14 @@ class CHECK(Check):
 
     # ---------------------------------------------------------------- generation
     def generate(self, rng, tier):
+        """~30 % of the cases give the ExponentiatedGradient object (and therefore its constraints object) a PREVIOUS LIFE
+        (see `impl`); the flag is derived from the case content, so the rng stream is unchanged"""
+        for case in self._generate(rng, tier):
+            if "history" not in case:
+                case = dict(case, history=random.Random(json.dumps(case, sort_keys=True)).random() < 0.3)
+            yield case
+
+    def _generate(self, rng, tier):
         n_yield = 0
         while True:
             n = rng.choice([6, 7, 8, 8, 9, 10, 10, 12, 14, 16])
@@ -372,6 +380,24 @@ class CHECK(Check):
             mk_moment(case), eps=float(F(case["eps"])), max_iter=case["max_iter"],
             nu=None if case["nu"] is None else float(F(case["nu"])), eta0=float(F(case["eta0"])),
             run_linprog_step=case["linprog"])
+        if case.get("history"):
+            # previous life of the SAME estimator (hence the same constraints) object: a fit on an auxiliary data set -- the
+            # case's rows reversed, labels inverted, one extra group -- and one prediction, OUTSIDE the recording, before the
+            # fit that is recorded and judged.  State that survives a refit (memoised supports, caches that fit / load_data do
+            # not reset; seeded changes C10b, C07a) then shows up in the judged fit.  The `nu` latch of fit (known finding F5c,
+            # judged under C19) is undone so that the judged fit starts from the case's own `nu`.
+            x0, y0, g0 = list(case["x"])[::-1], [1 - v for v in case["y"]][::-1], list(case["g"])[::-1]
+            if g0.count(g0[0]) >= 2:
+                g0[0] = "zz"
+            X0, Y0, S0 = containers(dict(case, x=x0, y=y0, g=g0))
+            try:
+                eg.fit(X0, Y0, sensitive_features=S0)
+                Xq0 = test_matrix(case, sorted(set(case["x"])))
+                eg._pmf_predict(Xq0)
+                eg.predict(Xq0, random_state=0)
+            except ValueError:
+                pass        # the known zero-signed-weights crash (F14) on the auxiliary data: no previous life then
+            eg.set_params(nu=None if case["nu"] is None else float(F(case["nu"])))
         try:
             with egreplay.recording() as events:
                 ret = eg.fit(X, y, sensitive_features=sf)
@@ -718,7 +744,8 @@ class CHECK(Check):
                 "nu=auto" if case["nu"] is None else "nu=given",
                 "max_iter=" + ("1" if case["max_iter"] == 1 else "2-5" if case["max_iter"] <= 5 else
                                "6-15" if case["max_iter"] <= 15 else "16-50"),
-                f"container={case.get('container')}"]
+                f"container={case.get('container')}",
+                "history=refit-after-a-previous-life" if case.get("history") else "history=fresh"]
         nontriv = False
         if case.get("sel"):
             n_rec = self._select_oracle([F(v) for v in case["sel"]["gaps"]], F(case["sel"]["nu"]))
